@@ -242,5 +242,62 @@ func genWiring() {
 	}
 	g.line("(* GenerateCodeChallenge: switch tag, then \"label => first statement\" per case *)")
 	g.line("Definition code_challenge_switch : list (list N) := %s.", coqStrList(sw))
+	// watcher_remove_branch: what filterEvent (pkg/watcher/watcher.go) does on a Remove event, as the call statements of
+	// that case in order (logging left out), and whether WaitForReplacement returns only after watcher.Add succeeded:
+	// the order "re-arm the watch, then reload" is what Model/Watch.v proves safe.
+	const wRel = "pkg/watcher/watcher.go"
+	var rmBranch, wrBranch []string
+	if fd := funcDecl(wRel, "filterEvent"); fd != nil && fd.Body != nil {
+		wtxt := func(n ast.Node) string { return strings.Join(strings.Fields(exprText(wRel, n)), " ") }
+		ast.Inspect(fd.Body, func(n ast.Node) bool {
+			cl, ok := n.(*ast.CaseClause)
+			if !ok || len(cl.List) != 1 {
+				return true
+			}
+			cond := wtxt(cl.List[0])
+			var calls []string
+			for _, st := range cl.Body {
+				t := wtxt(st)
+				if strings.HasPrefix(t, "logger.") {
+					continue
+				}
+				calls = append(calls, t)
+			}
+			switch {
+			case strings.Contains(cond, "fsnotify.Remove"):
+				rmBranch = append(rmBranch, cond)
+				rmBranch = append(rmBranch, calls...)
+			case strings.Contains(cond, "fsnotify.Write") || strings.Contains(cond, "fsnotify.Create"):
+				wrBranch = append(wrBranch, cond)
+				wrBranch = append(wrBranch, calls...)
+			}
+			return true
+		})
+	}
+	rearms := false
+	if fd := funcDecl(wRel, "WaitForReplacement"); fd != nil && fd.Body != nil {
+		wtxt := func(n ast.Node) string { return strings.Join(strings.Fields(exprText(wRel, n)), "") }
+		returns := 0
+		guarded := 0
+		ast.Inspect(fd.Body, func(n ast.Node) bool {
+			if _, ok := n.(*ast.ReturnStmt); ok {
+				returns++
+			}
+			if is, ok := n.(*ast.IfStmt); ok && is.Init != nil && wtxt(is.Init) == "err:=watcher.Add(filename)" && wtxt(is.Cond) == "err==nil" {
+				for _, st := range is.Body.List {
+					if _, ok := st.(*ast.ReturnStmt); ok {
+						guarded++
+					}
+				}
+			}
+			return true
+		})
+		rearms = returns == 1 && guarded == 1
+	}
+	g.line("(* filterEvent: the case condition and the call statements of the Remove case / of the Write-Create case *)")
+	g.line("Definition watcher_remove_branch : list (list N) := %s.", coqStrList(rmBranch))
+	g.line("Definition watcher_write_branch : list (list N) := %s.", coqStrList(wrBranch))
+	g.line("(* WaitForReplacement's only return sits under `if err := watcher.Add(filename); err == nil` *)")
+	g.line("Definition wait_for_replacement_rearms : bool := %v.", rearms)
 	g.write("Wiring.v")
 }
